@@ -118,7 +118,16 @@ class TextStub(object):
     def dumps(self, obj, **kw):
         return self._token(obj)
 
+    def _real(self):
+        if self.kind == "json":
+            import json
+            return json
+        from ruamel.yaml.main import YAML
+        return YAML(typ="rt")
+
     def loads(self, doc):
+        if doc not in self._REG:            # a real document (e.g. a file shipped with the package)
+            return self._real().loads(doc)
         return self._copy(self._REG[doc])
 
     def dump(self, obj, stream=None, **kw):
@@ -129,6 +138,9 @@ class TextStub(object):
 
     def load(self, stream):
         doc = stream.read() if hasattr(stream, "read") else stream
+        if doc not in self._REG:
+            import io
+            return self._real().load(io.StringIO(doc)) if self.kind == "yaml" else self._real().loads(doc)
         return self._copy(self._REG[doc])
 
 
